@@ -174,4 +174,45 @@ PROPS = {
                  "and false on >= 1 buffer; distinct by hash of (all rule text, externals, buffers)."),
         "assumptions": [],
     },
+    "C20": {
+        "src": "c20", "engine": "rc", "level": "exploration", "leaks": True,
+        "technique": "stateful / model-based property testing (rapidcheck): generated define/create/scan histories vs a three-level environment model",
+        "level_text": ("Generated histories of external-variable definitions at compiler, rule-set and scanner level (all four "
+                       "types; valid, duplicate, unknown identifier, incompatible type), scanner creations, scans and scanner "
+                       "destructions are run against the library and against a three-level environment model; after every "
+                       "scan 35 exposing rules (equality with every domain value, arithmetic, `at`, `in`, `#a in`, `@a[v]`, "
+                       "`v of`, uintN(v), loop bounds, string operators, float comparisons) must be true exactly when the "
+                       "model's effective value says so; rejected definitions must return the documented code and change "
+                       "nothing; LeakSanitizer runs after every history."),
+        "level_note": ("Trusts the model (a few lines) and the shim; integer<->boolean cross-type definitions are not "
+                       "generated (accepted at scanner level, rejected at rules level, manual silent); value domains are small "
+                       "fixed sets."),
+        "quick": (1500, 45), "thorough": (60000, 600),
+        "floor": 100,
+        "rule": ("case = one history: 4 compile-time definitions (+ duplicates), then 3-14 operations among rules.define, "
+                 "scanner.create, scanner.define, scan through a scanner, rules-level scan, scanner.destroy, and a final "
+                 "sweep scanning every live scanner. Non-trivial: definitions at >= 2 levels, >= 1 rejected definition and "
+                 ">= 2 scans; distinct by hash of the operation log."),
+        "assumptions": ["a run-time `v of (...)` with v == 0 means none; negative v means 'at least v' (always true)"],
+    },
+    "C11": {
+        "src": "c11", "engine": "rc", "level": "exploration",
+        "technique": "model-based property testing (rapidcheck) of the callback message sequence, exhaustive over the interruption index and reply",
+        "level_text": ("For generated rule sets (plain / private / global / global private rules over 1-3 namespaces, rule "
+                       "references, 0-3 imports per rule incl. the same module from several namespaces, conditions from the "
+                       "C04 grammar) and each of the four report-flag settings, the exact expected message sequence "
+                       "(import/imported once per module, one message per non-private rule in definition order with the "
+                       "global-rule semantics, finished last) is computed from the reference interpreter and compared with "
+                       "the engine's, for the uninterrupted scan and for ABORT and ERROR replies at every message index k."),
+        "level_note": ("Trusts the C04 interpreter for the truth of conditions (cases touching its two known findings are "
+                       "discarded); ABORT in reply to a module message and any reply to the finished message are accepted "
+                       "as the engine behaves (the property is silent)."),
+        "quick": (1200, 45), "thorough": (50000, 600),
+        "floor": 50,
+        "rule": ("case = rule set of 1-12 rules + a buffer + a flag setting; 2*(messages+1)+1 scans per case (every k, both "
+                 "replies, rules-level and scanner-level calls alternating). Non-trivial: the set has a global and a "
+                 "private rule, >= 2 namespaces or >= 1 import, and the script interrupts at k > 1; distinct by hash of "
+                 "(rule text, flags, buffer)."),
+        "assumptions": ["a rule reference evaluates to the referenced rule's own condition (exec.c OP_PUSH_RULE)"],
+    },
 }
